@@ -243,7 +243,8 @@ G1_CORPUS = [
 
 def part_b1(chk, thorough):
     rng = chk.rng
-    fams = list(G1_CORPUS) + [U.g1_family(rng) for _ in range(4000 if thorough else 700)]
+    exh = U.g1_exhaustive(thorough)
+    fams = list(G1_CORPUS) + exh + [U.g1_family(rng) for _ in range(4000 if thorough else 700)]
     cases = []
     for i, fam in enumerate(fams):
         tpls, leaf = U.g1_templates(fam, "c10/g%d" % i)
@@ -251,9 +252,10 @@ def part_b1(chk, thorough):
         tpls["c10/g%d_flat.html" % i] = U.g1_src(flat)
         cases.append({"id": i, "templates": tpls, "main": leaf, "also": ["c10/g%d_flat.html" % i], "features": [],
                       "ctx": {"r%d" % k: list(range(k)) for k in range(4)}})
-    res = run_workers([("b1-%d" % si, "stock-patched", {"dotall": True, "cases": sh}) for si, sh in enumerate(shards(cases, 4))])
+    nsh = C.NCPU if thorough else 6
+    res = run_workers([("b1-%d" % si, "stock-patched", {"dotall": True, "cases": sh}) for si, sh in enumerate(shards(cases, nsh))])
     obs = []
-    for si in range(len(shards(cases, 4))):
+    for si in range(len(shards(cases, nsh))):
         obs += res["b1-%d" % si]["obs"]
     terms, infos = [], []
     texts = C.clist([C.cstr(t) for t in U.G1_TEXTS])
@@ -264,7 +266,7 @@ def part_b1(chk, thorough):
         stock_out = o["stock-nodebug"].get("render1")
         nblocks = sum(len(U.g1_blocks_of(t)) for t in fam["chain"] + [fam["root"]])
         nontriv = bool(fam["chain"]) and "{{ block.super }}" in "".join(case["templates"].values()) and nblocks >= 3
-        chk.count(("b1", json.dumps(fam)), nontriv, kind="b1:levels=%d" % (1 + len(fam["chain"])),
+        chk.count(("b1", json.dumps(fam)), nontriv, kind="b1:%s:levels=%d" % ("exhaustive" if 0 < case["id"] - len(G1_CORPUS) + 1 <= len(exh) else "random", 1 + len(fam["chain"])),
                   sample={"part": "b1", "templates": case["templates"], "family_output": fam_out, "flattened_output": flat_out}
                   if nontriv and case["id"] % 150 == 7 else None)
         replay = {"part": "b1", "family": fam, "templates": case["templates"], "family_output": fam_out, "flattened_output": flat_out}
@@ -278,7 +280,7 @@ def part_b1(chk, thorough):
     bad = C.coq_eval_cases("C10", "blk", IMPORTS, "list str * family * str * list fnode * str", "check_blk", terms, shard=250)
     for i in bad[:10]:
         chk.disagree("block model (render_family / flatten / render_f) != Django on an abstract family", infos[i])
-    chk.extra["part_b1"] = {"families": len(fams)}
+    chk.extra["part_b1"] = {"families": len(fams), "exhaustive": len(exh)}
 
 
 # ---------------------------------------------------------------------------------------------
@@ -359,8 +361,8 @@ def part_b2(chk, thorough):
                   kind="b2:%s:%s%s%s" % (fp["mode"], fp.get("regime", "corpus"), ":shared-bc-class" if trig else "", ":slot-layer-class" if trig2 else ""),
                   sample={"part": "b2", "mode": fp["mode"], "page_family": U.fam_templates(fp["page"], "page")[0] or U.fam_templates(fp["page"], "page")[2],
                           "output": flat_out} if nontriv and c["id"] % 211 == 3 else None)
-        if "other:Timeout" in (fam_out[1], flat_out[1]):
-            stats["timeouts_skipped"] = stats.get("timeouts_skipped", 0) + 1
+        if {"other:Timeout", "other:RecursionError"} & {fam_out[1], flat_out[1]}:
+            stats["nonterminating_skipped"] = stats.get("nonterminating_skipped", 0) + 1
             continue
         if flat_out[0] == "err" and fam_out == flat_out:
             stats["errors_equal"] += 1
@@ -405,6 +407,10 @@ def part_b2(chk, thorough):
 
 
 def run(tier, seed):
+    # Gen/C09.v (tag_re pattern, delimiters, scan patterns, str.isspace set) anchors the lexer model this property reuses:
+    # regenerate it from the tree under test so that a source edit breaks a proof obligation of Props/C10.v too
+    import gen_constants
+    gen_constants.generate(["C09"])
     chk = C.Check("C10", tier, seed)
     chk.prove()
     thorough = tier == "thorough"
@@ -425,7 +431,7 @@ def run(tier, seed):
         rule="(a) seeded stock template cases (families via extends / include / block / block.super; for, if, with, filter, autoescape, firstof, "
              "cycle, custom tags; quoted arguments; error templates; %s per run) x multiline_tags {on, off} x engine.debug {on, off}: patched vs saved "
              "originals vs django_components-free process. Non-trivial = premise holds, some block tag is quoted, and the case uses extends or include. "
-             "(b1) seeded abstract families up to 4 levels (%s). Non-trivial = has a chain, block.super and >= 3 blocks. (b2) seeded genprog component "
+             "(b1) every family root x child over the templates with <= 2 nodes (thorough: root <= 3 nodes, and root x mid x leaf) from {text, block.super, loop, 2 block names}, then seeded abstract families up to 4 levels (%s). Non-trivial = has a chain, block.super and >= 3 blocks. (b2) seeded genprog component "
              "programs (both context behaviours) with page and/or component templates split into families (%s). Non-trivial = an overriding / "
              "block.super family, a component written with extends, nested components, and a successful render. Distinct = distinct templates."
              % ("6000" if thorough else "1200", "4000" if thorough else "700", "12000" if thorough else "2000"),
